@@ -114,7 +114,16 @@ def install():
     for k in ('dumps', 'loads', 'dump', 'load', 'JSONDecodeError'):
         setattr(sj, k, getattr(_json, k))
     sys.modules['simplejson'] = sj
-    class _tqdm:
+    class _tqdm_meta(type):
+        def __getattr__(cls, name):             # class-level calls: tqdm.write, tqdm.set_lock, tqdm.get_lock, ...
+            if name.startswith('__'):
+                raise AttributeError(name)
+            if name == 'get_lock':
+                import threading
+                return lambda *a, **k: threading.RLock()
+            return lambda *a, **k: None
+
+    class _tqdm(metaclass=_tqdm_meta):
         """progress bar stand-in: iterates its argument, accepts the usual calls and does nothing"""
 
         def __init__(self, iterable=None, *a, **k):
